@@ -26,6 +26,8 @@ import traceback
 from . import env
 
 EVIDENCE_DIR = os.path.join(env.VERIF, "evidence")
+if env.REPO != "/repo":          # scratch-tree runs (mutants) never touch the real evidence
+    EVIDENCE_DIR = os.path.join(env.VERIF, "evidence", "_alt")
 REPLAY_DIR = os.path.join(EVIDENCE_DIR, "replays")
 SHARD_DIR = os.path.join(EVIDENCE_DIR, "shards")
 KNOWN_FILE = os.path.join(env.VERIF, "known_findings.json")
